@@ -21,6 +21,21 @@ def val(r):
     return r
 
 
+def scribble(r):
+    """overwrite a returned Bits in place (all bits flipped, one bit wider): results must be independent objects, so this
+    may not change any operand, any other result or any later evaluation"""
+    from crysp.bits import Bits
+    if isinstance(r, Bits):
+        try:
+            r.size = r.size + 1
+            r.ival = r.ival ^ r.mask
+        except Exception:
+            pass
+    elif isinstance(r, list):
+        for x in r:
+            scribble(x)
+
+
 def bits_of(n, x):
     return [(x >> i) & 1 for i in range(n)]
 
@@ -57,6 +72,11 @@ def run_unary(ctx, pt):
         if r[0] == 'ok' and isinstance(r[1], Bits):
             ctx.ok('C08/%s/payload-exceeds-size' % key, r[1].ival <= r[1].mask == M_of(r[1]), (r[1].ival, r[1].mask, r[1].size))
         ctx.ok('C08/%s/operand-mutated' % key, (A.ival, A.size, A.mask) == (x, n, M), (A.ival, A.size, A.mask))
+        if r[0] == 'ok' and not key.startswith(('zeroextend', 'signextend', 'extend')):
+            scribble(r[1])
+            r2 = ctx.attempt(f)
+            ctx.eq('C08/%s/result-shared-with-later-evaluation' % key, val(r2[1]) if r2[0] == 'ok' else r2, exp)
+            ctx.ok('C08/%s/operand-mutated' % key, (A.ival, A.size, A.mask) == (x, n, M), (A.ival, A.size, A.mask))
 
     def M_of(b):
         return (1 << b.size) - 1
@@ -115,6 +135,10 @@ def run_binary(ctx, pt):
             if r[0] == 'ok' and isinstance(r[1], Bits):
                 ctx.ok('C08/%s/payload-exceeds-size' % key, 0 <= r[1].ival <= r[1].mask == (1 << r[1].size) - 1,
                        (r[1].ival, r[1].mask, r[1].size))
+                if (m + k) % 2 == 0:
+                    scribble(r[1])
+                    r2 = ctx.attempt(f)
+                    ctx.eq('C08/%s/result-shared-with-later-evaluation' % key, val(r2[1]) if r2[0] == 'ok' else r2, exp)
             ctx.ok('C08/%s/operand-mutated' % key, (A.ival, A.size, A.mask, Bv.ival, Bv.size, Bv.mask) ==
                    (a, m, (1 << m) - 1, b, k, (1 << k) - 1), (A.ival, A.size, Bv.ival, Bv.size))
         res('add', lambda: A + Bv, ((a + b) & Mw, w))
@@ -168,6 +192,33 @@ def run_index(ctx, pt):
         got = val(r[1]) if r[0] == 'ok' else r
         ctx.eq('C08/%s' % key, got, exp)
         ctx.ok('C08/%s/operand-mutated' % key, (A.ival, A.size) == (x, n), (A.ival, A.size))
+        if key.startswith('getitem') and r[0] == 'ok':
+            # the selected bits are a new vector: overwriting it changes neither the source nor any later selection,
+            # also on another vector
+            scribble(r[1])
+            r2 = ctx.attempt(f)
+            ctx.eq('C08/%s/result-shared-with-later-evaluation' % key, val(r2[1]) if r2[0] == 'ok' else r2, exp)
+            other = Bits(x ^ ((1 << n) - 1), n)
+            ctx.eq('C08/getitem/result-shared-across-vectors', [other[j].ival for j in range(n)], [1 - b for b in bl])
+            ctx.ok('C08/%s/operand-mutated' % key, (A.ival, A.size) == (x, n), (A.ival, A.size))
+    # assigning a vector to a selection of itself (the value is the target object)
+    for step in (-1, 2, -2):
+        idx = list(range(n))[::step]
+        if len(idx) == n and n > 0:
+            X = B(n, x)
+            r = ctx.attempt(lambda: X.__setitem__(slice(None, None, step), X))
+            nb = list(bl)
+            for i, b in zip(idx, bl):
+                nb[i] = b
+            ctx.eq('C08/setitem-slice-bits/value-is-the-target', (r[0], X.ival, X.size), ('ok', from_bits(nb), n))
+    if 0 < n <= 5:
+        for perm in itertools.permutations(range(n)):
+            X = B(n, x)
+            r = ctx.attempt(lambda: X.__setitem__(list(perm), X))
+            nb = list(bl)
+            for i, b in zip(perm, bl):
+                nb[i] = b
+            ctx.eq('C08/setitem-list/value-is-the-target', (r[0], X.ival, X.size), ('ok', from_bits(nb), n))
     for i in range(-n, n):      # in-range indices only: the statement does not fix what an out-of-range index does
         inr = True
         res('getitem-int', lambda: A[i], ((bl[i], 1) if inr else ('exc', 'IndexError')))
